@@ -43,11 +43,12 @@ const (
 	opReader
 	opTamper
 	opPolicy
+	opCrashAll
 	nOps
 )
 
 var opNames = [...]string{"end", "append", "joinlive", "send", "deliver", "publish", "crash", "restart", "partition", "heal",
-	"clockjump", "special", "setid", "algebra", "stall", "iter", "bounded", "byz", "denied", "reader", "tamper", "policy"}
+	"clockjump", "special", "setid", "algebra", "stall", "iter", "bounded", "byz", "denied", "reader", "tamper", "policy", "crashall"}
 
 type Profile struct {
 	Prop    string
@@ -142,7 +143,8 @@ type World struct {
 	PayloadBin bool
 	PCMode int
 	payloadSeq int
-	F      struct{ drop, dup, partition, crash, stall, clockjump bool }
+	F      struct{ drop, dup, partition, crash, stall, clockjump, adderr bool }
+	Ptrs   []ptrRec
 	Foreign *ipfslog.IPFSLog
 	ctx    context.Context
 	step   int
@@ -192,6 +194,10 @@ func NewWorld(r *Run, p *Profile) *World {
 		w.F.crash = r.Bool("f-crash", 1, 2)
 		w.F.stall = r.Bool("f-stall", 1, 2)
 		w.F.clockjump = r.Bool("f-clock", 1, 2)
+		w.F.adderr = r.Bool("f-adderr", 1, 2)
+	}
+	if p.Check["C17"] {
+		w.installCrashMonitor()
 	}
 	w.setupCodec()
 	if w.Codec == "pb" {
@@ -339,7 +345,15 @@ func (w *World) doAppend() {
 	}
 	before := w.M.Heads(n.Set)
 	maxT := w.M.MaxTime(n.Set)
-	e, err := n.Log.Append(w.ctx, pl, &ipfslog.AppendOptions{PointerCount: pc})
+	pin := false
+	if w.P.Check["C17"] {
+		pin = w.R.Bool("pin", 1, 4)
+		if w.F.adderr && w.R.Bool("add-error", 1, 8) {
+			w.appendWithDiskError(n, pl, pc)
+			return
+		}
+	}
+	e, err := n.Log.Append(w.ctx, pl, &ipfslog.AppendOptions{PointerCount: pc, Pin: pin})
 	if err != nil {
 		w.R.Violate(w.P.Prop+":append-error", "append on replica %d failed without any injected fault: %v", n.Idx, err)
 	}
@@ -351,6 +365,7 @@ func (w *World) doAppend() {
 	}
 	n.Set[me.Hash] = true
 	w.afterAppend(n, e, me)
+	w.recordPointer(n, 1, e.GetHash())
 	if w.R.Bool("persist-hash", 1, 3) {
 		n.Durable = &durablePtr{kind: 1, c: e.GetHash(), set: copySet(n.Set)}
 	}
@@ -593,12 +608,22 @@ func (w *World) doPublish() {
 	if n == nil || len(n.Set) == 0 {
 		return
 	}
+	if w.P.Check["C17"] && w.F.adderr && w.R.Bool("add-error", 1, 8) {
+		w.St.FailNextAdd("error")
+		_, err := n.Log.ToMultihash(w.ctx)
+		w.R.Logf("publish n%d with disk error -> err=%v", n.Idx, err != nil)
+		if err == nil {
+			w.R.Violate("C17:acknowledged-lost-write", "ToMultihash returned a manifest although the block write failed")
+		}
+		return
+	}
 	c, err := n.Log.ToMultihash(w.ctx)
 	if err != nil {
 		w.R.Violate(w.P.Prop+":publish-error", "ToMultihash on a non-empty log failed: %v", err)
 	}
 	n.Durable = &durablePtr{kind: 0, c: c, set: copySet(n.Set)}
 	w.checkManifest(n, c)
+	w.recordPointer(n, 0, c)
 	w.R.Logf("publish n%d manifest=%s |set|=%d", n.Idx, c.String(), len(n.Set))
 }
 
@@ -1228,6 +1253,8 @@ func (w *World) dispatch(op int) {
 		w.doAlgebra()
 	case opStall:
 		w.doStall()
+	case opCrashAll:
+		w.doCrashAll()
 	default:
 		w.dispatchExt(op)
 	}
